@@ -45,15 +45,25 @@ struct Case {
     a: usize,
     b: usize,
     fill: u8,  // 0 = 0xFF, 1 = 0x00, 2 = crafted stale header after the expected data
-    place: u8, // 0 heap exact, 1 guard page, 2 stack
+    place: u8, // 0 heap exact, 1 guard page, 2 stack, 3 sub-slice with canaries, 4 sub-slice ending at the allocation end, 5 sub-slice ending at a PROT_NONE page
     hdr: u8,   // 0 msghdr on stack, 1 msghdr boxed
     cred: bool,
     dlen: usize,
+    off: usize,   // places 3..5: start of the slice relative to an 8-aligned address (0..=7)
+    extra: usize, // places 3..5: 0..=7 more bytes, so that sizes are not only multiples of 4
 }
 impl Case {
     fn size(&self) -> usize {
         let base = cmsg_space(4 * self.n) + if self.cred { 32 } else { 0 };
-        (base + self.b).saturating_sub(self.a)
+        (base + self.b).saturating_sub(self.a) + self.extra
+    }
+    /// start offset modulo 8 the slice really gets (the guard placement derives it from the size)
+    fn start_mod8(&self) -> usize {
+        match self.place {
+            3 | 4 => self.off,
+            5 => (8 - self.size() % 8) % 8,
+            _ => 0,
+        }
     }
     fn nclass(&self) -> &'static str {
         match self.n {
@@ -73,13 +83,14 @@ impl Case {
         ["ff", "00", "stalehdr"][self.fill as usize]
     }
     fn placename(&self) -> &'static str {
-        ["heap-exact", "guard-page", "stack"][self.place as usize]
+        ["heap-exact", "guard-page", "stack", "subslice-canaries", "subslice-alloc-end", "subslice-guard-page"][self.place as usize]
     }
     fn json(&self) -> String {
         format!(
-            "{{\"n\":{},\"ctrl_size\":{},\"minus\":{},\"plus\":{},\"fill\":\"{}\",\"place\":\"{}\",\"msghdr\":\"{}\",\"passcred\":{},\"data_len\":{}}}",
+            "{{\"n\":{},\"ctrl_size\":{},\"start_mod8\":{},\"minus\":{},\"plus\":{},\"fill\":\"{}\",\"place\":\"{}\",\"msghdr\":\"{}\",\"passcred\":{},\"data_len\":{}}}",
             self.n,
             self.size(),
+            self.start_mod8(),
             self.a,
             self.b,
             self.fillname(),
@@ -90,7 +101,7 @@ impl Case {
         )
     }
     fn spec(&self) -> String {
-        format!("{}:{}:{}:{}:{}:{}:{}", self.n, self.a, self.b, self.fill, self.place, self.hdr, u8::from(self.cred))
+        format!("{}:{}:{}:{}:{}:{}:{}:{}:{}", self.n, self.a, self.b, self.fill, self.place, self.hdr, u8::from(self.cred), self.off, self.extra)
     }
 }
 
@@ -100,6 +111,7 @@ static GUARD_LO: AtomicUsize = AtomicUsize::new(0);
 static GUARD_HI: AtomicUsize = AtomicUsize::new(0);
 static PHASE: AtomicUsize = AtomicUsize::new(0); // 1 recv, 2 iterate, 3 compare
 static RESFD: AtomicUsize = AtomicUsize::new(0);
+const CANARY: u8 = 0xC7;
 
 extern "C" fn on_segv(_sig: i32, info: *const u8, uctx: *const u8) {
     // async-signal-safe: raw reads, write(2), _exit
@@ -208,6 +220,12 @@ fn child(case: &Case, sock: i32, resfd: i32, idents: &[(u64, u64)]) -> ! {
     let mut res = String::new();
     // ---- place the control buffer
     let mut stackbuf = StackBuf([0u8; 2048]);
+    let mut canaries: Vec<(usize, usize)> = Vec::new(); // (address, length) of bytes that nobody may change
+    // panics that cannot unwind (misaligned dereference checks) abort: let their text reach the parent
+    let _ = vh::catch(|| ());
+    std::panic::set_hook(Box::new(|info| {
+        eprintln!("PANIC {info}");
+    }));
     let ctrl_ptr: *mut u8 = unsafe {
         match case.place {
             0 => std::alloc::alloc(std::alloc::Layout::from_size_align(size.max(1), 8).unwrap()),
@@ -223,9 +241,39 @@ fn child(case: &Case, sock: i32, resfd: i32, idents: &[(u64, u64)]) -> ! {
                 GUARD_HI.store(guard as usize + pg, Ordering::Relaxed);
                 guard.sub(need)
             }
-            _ => {
+            2 => {
                 assert!(size <= 2048);
                 stackbuf.0.as_mut_ptr()
+            }
+            3 => {
+                let total = 32 + case.off + size + 32;
+                let base = std::alloc::alloc(std::alloc::Layout::from_size_align(total, 8).unwrap());
+                std::ptr::write_bytes(base, CANARY, total);
+                canaries.push((base as usize, 32 + case.off));
+                canaries.push((base as usize + 32 + case.off + size, 32));
+                base.add(32 + case.off)
+            }
+            4 => {
+                let total = 8 + case.off + size;
+                let base = std::alloc::alloc(std::alloc::Layout::from_size_align(total, 8).unwrap());
+                std::ptr::write_bytes(base, CANARY, total);
+                canaries.push((base as usize, 8 + case.off));
+                base.add(8 + case.off)
+            }
+            _ => {
+                let pg = 4096usize;
+                let need = size + 40;
+                let pages = need.div_ceil(pg);
+                let base = sys::mmap(std::ptr::null_mut(), (pages + 1) * pg, 3, 0x22, -1, 0);
+                assert!(base as isize != -1);
+                let guard = base.add(pages * pg);
+                assert_eq!(0, sys::mprotect(guard, pg, 0));
+                GUARD_LO.store(guard as usize, Ordering::Relaxed);
+                GUARD_HI.store(guard as usize + pg, Ordering::Relaxed);
+                let start = guard.sub(size);
+                std::ptr::write_bytes(start.sub(32), CANARY, 32);
+                canaries.push((start as usize - 32, 32));
+                start
             }
         }
     };
@@ -236,13 +284,15 @@ fn child(case: &Case, sock: i32, resfd: i32, idents: &[(u64, u64)]) -> ! {
         _ => {
             ctrl.fill(0);
             // a plausible stale record right where the kernel's data will end
-            let off = cmsg_space(4 * case.n) + if case.cred { 32 } else { 0 };
-            let off = if case.n == 0 { off - 16 } else { off };
-            if off + 24 <= size {
-                ctrl[off..off + 8].copy_from_slice(&20u64.to_le_bytes());
-                ctrl[off + 8..off + 12].copy_from_slice(&1i32.to_le_bytes());
-                ctrl[off + 12..off + 16].copy_from_slice(&1i32.to_le_bytes());
-                ctrl[off + 16..off + 20].copy_from_slice(&0i32.to_le_bytes());
+            // (relative to the first 8-aligned byte of the slice, where an aligning receiver would start)
+            let lead = (8 - ctrl_ptr as usize % 8) % 8;
+            let so = cmsg_space(4 * case.n) + if case.cred { 32 } else { 0 };
+            let so = lead + if case.n == 0 { so - 16 } else { so };
+            if so + 24 <= size {
+                ctrl[so..so + 8].copy_from_slice(&20u64.to_le_bytes());
+                ctrl[so + 8..so + 12].copy_from_slice(&1i32.to_le_bytes());
+                ctrl[so + 12..so + 16].copy_from_slice(&1i32.to_le_bytes());
+                ctrl[so + 16..so + 20].copy_from_slice(&0i32.to_le_bytes());
             }
         }
     }
@@ -261,6 +311,15 @@ fn child(case: &Case, sock: i32, resfd: i32, idents: &[(u64, u64)]) -> ! {
         hdr_box = Box::new(MsgHdrBorrow::create_recv(io, Some(ctrl)));
         &mut hdr_box
     };
+    assert_eq!(std::mem::size_of::<MsgHdrBorrow>(), std::mem::size_of::<RawMsgHdr>());
+    // what the kernel is about to be told: must lie inside the supplied slice
+    let (pre_ctrl, pre_len) = unsafe {
+        let raw = (hdr as *const MsgHdrBorrow).cast::<RawMsgHdr>();
+        ((*raw).control as usize, (*raw).controllen)
+    };
+    if pre_len > 0 && (pre_ctrl < ctrl_addr || pre_ctrl + pre_len > ctrl_addr + size) {
+        res.push_str(&format!("range_bad={}:{};", pre_ctrl as i64 - ctrl_addr as i64, pre_len));
+    }
     let fd = NonNegativeI32::try_new(sock).unwrap();
     let r = rusl::network::recvmsg(fd, hdr, 0);
     let nbytes = match r {
@@ -270,17 +329,33 @@ fn child(case: &Case, sock: i32, resfd: i32, idents: &[(u64, u64)]) -> ! {
             finish(resfd, &res, 0)
         }
     };
-    assert_eq!(std::mem::size_of::<MsgHdrBorrow>(), std::mem::size_of::<RawMsgHdr>());
-    let (controllen, flags) = unsafe {
+    let (kctrl, controllen, flags) = unsafe {
         let raw = (hdr as *const MsgHdrBorrow).cast::<RawMsgHdr>();
-        ((*raw).controllen, (*raw).flags)
+        ((*raw).control as usize, (*raw).controllen, (*raw).flags)
     };
-    res.push_str(&format!("recv={nbytes};controllen={controllen};flags={flags};"));
-    if controllen > size {
+    // canaries around the slice: the kernel must not have touched them
+    for (ci, &(ca, cl)) in canaries.iter().enumerate() {
+        let b = unsafe { std::slice::from_raw_parts(ca as *const u8, cl) };
+        let changed = b.iter().filter(|&&x| x != CANARY).count();
+        if changed > 0 {
+            let first = b.iter().position(|&x| x != CANARY).unwrap();
+            let rel = (ca + first) as i64 - (ctrl_addr + size) as i64;
+            res.push_str(&format!("canary_bad={ci}:{changed}:{rel};"));
+        }
+    }
+    res.push_str(&format!("recv={nbytes};controllen={controllen};flags={flags};kctrl_off={};", kctrl as i64 - ctrl_addr as i64));
+    if controllen > 0 && (kctrl < ctrl_addr || kctrl > ctrl_addr + size) {
         res.push_str("controllen_gt_size=1;");
         finish(resfd, &res, 0);
     }
-    let snapshot: Vec<u8> = unsafe { std::slice::from_raw_parts(ctrl_ptr, controllen).to_vec() };
+    // the part of what the kernel reports that lies inside the supplied slice
+    let kctrl = if controllen == 0 { ctrl_addr } else { kctrl };
+    let inside = controllen.min(ctrl_addr + size - kctrl);
+    if inside < controllen {
+        res.push_str(&format!("reported_past_slice={};", controllen - inside));
+    }
+    let controllen = inside;
+    let snapshot: Vec<u8> = unsafe { std::slice::from_raw_parts(kctrl as *const u8, controllen).to_vec() };
     let recs = reference_parse(&snapshot);
     let ref_lists: Vec<Vec<i32>> = recs.iter().filter(|r| r.0 == 1 && r.1 == 1).map(|r| r.2.clone()).collect();
     res.push_str(&format!("nrec={};ref={};", recs.len(), fmt_lists(&ref_lists)));
@@ -328,9 +403,9 @@ fn child(case: &Case, sock: i32, resfd: i32, idents: &[(u64, u64)]) -> ! {
                 Ok(Some(ControlMessageSend::ScmRights(s))) => {
                     let p = s.as_ptr() as usize;
                     let bytes = s.len().saturating_mul(4);
-                    if p < ctrl_addr || p.saturating_add(bytes) > ctrl_addr + controllen {
+                    if p < kctrl || p.saturating_add(bytes) > kctrl + controllen {
                         outcome = "slice-outside";
-                        res.push_str(&format!("bad_slice_off={};bad_slice_len={};", p as i64 - ctrl_addr as i64, s.len()));
+                        res.push_str(&format!("bad_slice_off={};bad_slice_len={};", p as i64 - kctrl as i64, s.len()));
                         break;
                     }
                     got.push(s.iter().map(|f| f.value()).collect());
@@ -617,6 +692,29 @@ fn run_case(case: &Case, files: &Files, t: &mut Tot, build: &str) {
         }
         return;
     }
+    let misaligned = err.contains("misaligned pointer dereference") || (err.contains("unsafe precondition(s) violated") && err.contains("aligned"));
+    if !exited && termsig == 6 && misaligned && err.contains("PHASE iterate") {
+        let line = err.lines().find(|l| l.contains("misaligned pointer dereference") || l.contains("unsafe precondition")).unwrap_or("").to_string();
+        viol(
+            t,
+            "C16/cmsg-iter/unaligned-control-buffer/misaligned-access-abort",
+            case,
+            &format!("\"abort_message\":{},\"build\":{},\"note\":\"create_recv accepts any &mut [u8]; the iterator dereferences *mut CmsgHdr and builds &[Fd] at the slice's own alignment\"", vh::js(&line), vh::js(build)),
+        );
+        return;
+    }
+    let heap_corrupt = ["malloc(): ", "realloc(): ", "free(): ", "malloc assertion failure", "corrupted size", "corrupted double-linked"].iter().any(|m| err.contains(m));
+    if !exited && termsig == 6 && heap_corrupt && matches!(case.place, 3 | 4) {
+        // the harness never writes next to the slice; the allocator found its bookkeeping behind it overwritten
+        let line = err.lines().find(|l| l.contains("alloc") || l.contains("free()") || l.contains("corrupted")).unwrap_or("").to_string();
+        viol(
+            t,
+            "C16/recvmsg/kernel-write-outside-control-buffer",
+            case,
+            &format!("\"detector\":\"allocator bookkeeping directly behind the slice (slice end == allocation end) was overwritten; glibc aborted\",\"abort_message\":{},\"build\":{}", vh::js(&line), vh::js(build)),
+        );
+        return;
+    }
     if !exited || code != 0 {
         vh::inconclusive(&format!("fdpass child ended abnormally (signal {termsig}, code {code}) {} stderr: {}", case.json(), &err[err.len().saturating_sub(300)..].replace('\n', " ")));
         return;
@@ -649,6 +747,27 @@ fn run_case(case: &Case, files: &Files, t: &mut Tot, build: &str) {
         vh::js(build)
     );
     let mut bad = false;
+    if let Some(rb) = kv(&res, "range_bad") {
+        bad = true;
+        viol(
+            t,
+            "C16/recvmsg/kernel-write-outside-control-buffer",
+            case,
+            &format!("{detail},\"detector\":\"msg_control/msg_controllen handed to the kernel leave the supplied slice\",\"control_offset_from_slice_start:controllen\":{}", vh::js(&rb)),
+        );
+    }
+    if let Some(cb) = kv(&res, "canary_bad") {
+        bad = true;
+        viol(
+            t,
+            "C16/recvmsg/kernel-write-outside-control-buffer",
+            case,
+            &format!("{detail},\"detector\":\"canary bytes next to the slice changed during recvmsg\",\"canary_index:bytes_changed:first_changed_offset_from_slice_end\":{}", vh::js(&cb)),
+        );
+    } else if kv(&res, "reported_past_slice").is_some() && kv(&res, "range_bad").is_none() {
+        bad = true;
+        viol(t, "C16/recvmsg/kernel-write-outside-control-buffer", case, &format!("{detail},\"detector\":\"msg_controllen after recvmsg reaches past the slice end\""));
+    }
     // sender side / kernel delivery
     if kv(&res, "data_ok").as_deref() != Some("1") {
         bad = true;
@@ -761,7 +880,15 @@ fn gen_case(r: &mut Rng, i: u64, place_sel: &str, asan: bool) -> Case {
         hdr: r.below(2) as u8,
         cred: r.chance(1, 5),
         dlen: r.range(1, 64) as usize,
+        off: 0,
+        extra: 0,
     };
+    if place_sel == "any" && r.chance(2, 5) {
+        // sub-slices of a larger region: any start alignment, sizes not only multiples of 4
+        c.place = if asan { *r.pick(&[3u8, 4, 4]) } else { *r.pick(&[3u8, 3, 4, 5, 5]) };
+        c.off = r.below(8) as usize;
+        c.extra = if r.chance(1, 2) { 0 } else { r.below(8) as usize };
+    }
     if c.place == 2 && c.size() > 2048 {
         c.place = 0;
     }
@@ -793,6 +920,8 @@ fn main() {
                 hdr: p[5] as u8,
                 cred: p[6] != 0,
                 dlen: 5,
+                off: p.get(7).copied().unwrap_or(0),
+                extra: p.get(8).copied().unwrap_or(0),
             });
         }
     }
